@@ -9,8 +9,9 @@ def _vec(h, dim):
     return h.list_real('x') if dim is None else h.vec('x', dim)
 
 
-def _and(h, n, dim, maxiter):
-    cs = [h.fn('c%d' % i, ret='same') for i in range(n)]
+def _and(h, n, dim, maxiter, inplace=False):
+    # members: deterministic vector maps, pure (fresh result) or in place (result written into the argument)
+    cs = [h.fn('c%d' % i, ret='same', inplace=inplace) for i in range(n)]
     onexit = h.fn('ONEXIT', ret='same', log='exit')
     onfail = h.fn('ONFAIL', ret='same', log='fail')
     cf = h.call(h.get(K + 'and_'), *cs, maxiter=maxiter, onexit=onexit, onfail=onfail)
@@ -26,6 +27,12 @@ def _and(h, n, dim, maxiter):
             h.check('success-implies-fixed-point-of-every-member', 'seq_eq(cv, v)', cv=h.call(c, h.snapshot(v)), v=v)
     h.cover('success', 'len(ex) == 1', ex=ex)
     h.cover('failure', 'len(fl) == 1', fl=fl)
+
+
+for _n, _d, _m in [(2, None, 1), (2, 1, 2)]:
+    contract('C17/constraints.and_/in-place-members,n=%d,dim=%s,maxiter=%d' % (_n, _d or 'any', _m), ['C17', 'C03'],
+             K + 'and_._constraint')(lambda h, n=_n, d=_d, m=_m: _and(h, n, d, m, inplace=True))
+contract('C17/constraints.and_/n=3,dim=1,maxiter=2', ['C17'], K + 'and_._constraint')(lambda h: _and(h, 3, 1, 2))
 
 
 def _or(h, n, dim, maxiter):
